@@ -240,11 +240,11 @@ Depth2(gs, j, n1) ==
 TreeOf(gs, id, n1) == IF id <= n1 THEN Depth1At(gs, id) ELSE Depth2(gs, id - n1, n1)
 
 \* the exported case: everything the driver splices comes from the reference.  A depth-2 case also carries its
-\* non-leaf operands as `kids` (observed on their own by the driver), so that the judge can attribute a failure of
+\* non-literal operands as `kids` (observed on their own by the driver), so that the judge can attribute a failure of
 \* the whole expression to the operand that already fails.
 Observe(t) == LET r == Eval(t) IN
               [expr |-> t, src |-> Show(t), reflit |-> RefLit(r), vt |-> PrintType(r), dt |-> IF DynObservable(r) THEN 1 ELSE 0, kids |-> <<>>]
-IsDeep(t) == t.k \in {"un", "bin"} \/ (t.k = "conv" /\ t.a.k # "lit")
+IsDeep(t) == t.k # "lit"
 Operands(t) == IF t.k = "bin" THEN <<t.a, t.b>> ELSE IF t.k = "lit" THEN <<>> ELSE <<t.a>>
 KidsOf(t) == LET ds == SelectSeq(Operands(t), IsDeep) IN [i \in 1..Len(ds) |-> Observe(ds[i])]
 CaseOf(gs, id, n1) ==
